@@ -207,7 +207,18 @@ def run(ctx, prog, res):
                         want = "Month::%s{}" % vs[0].split("::")[-1]
                         r6.check(first is not None and want == first, {"fn": f.id, "compares_successor_with": vs[0].split("::")[-1], "frame_start": first}, "C05.R6:%s" % f.id,
                                  "%s detects the wrap of Month::next by comparing with %s, but the cycle restarts at %s" % (f.id, vs[0].split("::")[-1], first), lib.where_of(f, d["node"]))
-    r6.floor(1)
+    # the day-number form of an end (`Jan 10-20`, `Jan 25-05`): the end rolls into the next month only when its day
+    # number is strictly smaller than the start's; an equal day is the start day itself
+    bdt = prog.fns.get("opening_hours_syntax::parser::build_date_to")
+    if bdt is None:
+        r6.anchor_missing("parser::build_date_to")
+    else:
+        tests = [c for _, c in flow.comparisons(bdt) if c["op"] in ("Lt", "Le", "Gt", "Ge") and any("Fixed.day" in flow.shape(bdt, c[x], depth=4) for x in ("a", "b")) and any("build_daynum" in flow.shape(bdt, c[x], depth=6) or "daynum" in flow.shape(bdt, c[x], depth=6).lower() for x in ("a", "b"))]
+        r6.check(len(tests) >= 1, {"fn": "build_date_to", "day_number_tests": len(tests)}, "C05.R6:date_to:ANCHOR", "ANCHOR: build_date_to no longer compares the start's day with the parsed day number", lib.where_of(bdt))
+        for c in tests:
+            r6.check(c["op"] in ("Lt", "Gt"), {"fn": "build_date_to", "roll_over_test": c["op"], "strict": True}, "C05.R6:date_to:strict",
+                     "build_date_to rolls the end into the next month with a non-strict test (%s): `Jan 10-10` then ends on Feb 10 instead of being the single day" % c["op"], lib.where_of(bdt, c["node"]))
+    r6.floor(2)
 
     # R7 -------------------------------------------------------------------------------------
     r7 = res.rule("C05.R7", "an open-ended date (`May 1+`, `2024 May 1+`, `2024 easter+`) runs to the end of the year, or for ever when its start carries a year - for every kind of start date: where the builder chooses the far end `9999 Dec 31`, the choice is controlled by a test that looks at the year of every variant of Date that has one (Date::has_year, or an equivalent inline test)")
